@@ -31,6 +31,7 @@ type SolverStats struct {
 	Errors   int
 	TimeS    float64
 	ModelHit int // feasibility answered by cached model, no query
+	Fallback int // queries passed to a fallback back end after the primary said unknown
 }
 
 type Solver struct {
@@ -397,4 +398,15 @@ func (s *Solver) getValues(vars []*Term) map[string]uint64 {
 		}
 	}
 	return model
+}
+
+// StandaloneSMT renders sat(pc ∧ extra) as a self-contained SMT-LIB2 script (debugging, solver diff).
+func StandaloneSMT(pc []*Term, extra []*Term) string {
+	s := &Solver{defLvl: map[uint32]int{}, defLog: [][]uint32{nil}, dead: true}
+	for _, t := range append(append([]*Term{}, pc...), extra...) {
+		s.define(t)
+		fmt.Fprintf(&s.sb, "(assert %s)\n", ref(t))
+	}
+	s.sb.WriteString("(check-sat)\n")
+	return s.sb.String()
 }
